@@ -1,8 +1,14 @@
 (* C07 driver.  One case per line:
      case TAB v_rm TAB v_init TAB path(,) TAB names(,);versions(,);tags(,);flavors(,);usertags(,);user=tag,tag+user=tag,tag TAB proc|proc|...
           TAB v_uloc TAB v_ustale TAB v_noread TAB v_shared TAB v_foreign (1: a flavor the stack was not loaded for is answered: not declared)
+          TAB v_reloadall (1: ensureInSync reloads every flavor that has a cache file in the directory; 0: the flavors held)
    proc = P;user;admin;flavor;crash;q;op&op&...      crash = ~ or i,g,b     q = 0/1    admin = 0/1
         | X;loc;stack;flavor                  an outside deletion of a cache file
+        | S;user;flavor;step&step&...         a session: several live instances of one user in one process
+                                              step = N (one more instance) | O@i@op (instance i runs op) | T@i (instance i
+                                              parses a table on demand) | Q@i (instance i is asked)
+          its segment: outcomes(,) of the steps # records # pickles # (empty) # block@block... # userrecords,
+          one block per Q step: step index > loaded > answers > records at that step > stacks with an untracked cache file (asked instance) > the same for any live instance (diagnostic only: not read by the harness)
    op   = an operation in the format of the C06 driver, or  DC,loc,stack,flavor
           or UA,flavor,... / UP,flavor,stack,force,noaction,tag,name,version (UP: planted in the tag directory)  /  UU,flavor,stack,force,noaction,tag,name,version|~
    output: one TAB-separated segment per proc:
@@ -182,6 +188,44 @@ let handle (f : Stdlib.String.t array) : Stdlib.String.t =
           let ans = if a.(5) = "1" && not crashed then answers (flag 10) univ utags (own_tags u) u (uniq_l (fallbacks fl @ allfl)) w' m else "" in
           cat "#" [cat "," (Stdlib.List.map show_outcome ocs); show_records w'; show_pickles w';
                    (if crashed then "" else show_loaded m); ans; show_urecords w']
+        | "S" ->
+          let u = dec_str a.(1) in
+          let fl = dec_str a.(2) in
+          let ms = ref [] in
+          let blocks = ref [] in
+          let ocs = Stdlib.List.mapi (fun k st ->
+              let b = Array.of_list (Stdlib.String.split_on_char '@' st) in
+              let idx () = nat_of_int (int_of_string b.(1)) in
+              let step = (match b.(0) with
+                  | "N" -> LNew
+                  | "O" -> LOp (idx (), dec_pop b.(2))
+                  | "T" -> LTable (idx ())
+                  | "Q" -> LAsk (idx ())
+                  | _ -> failwith "bad step") in
+              let ((w', ms'), oc) = run_lstep_S vr (flag 11) u fl !w !ms step in
+              w := w'; ms := ms';
+              (if b.(0) = "Q" then
+                 match Stdlib.List.nth_opt ms' (int_of_string b.(1)) with
+                 | Some m ->
+                   blocks := cat ">" [string_of_int k; show_loaded m;
+                                      answers (flag 10) univ utags (own_tags u) u (uniq_l (fallbacks fl @ allfl)) w' m;
+                                      show_records w';
+                                      (* the stacks for which the instance holds a flavor whose cache file in its own
+                                         directory exists and was neither loaded nor written by it (it loaded from the
+                                         shared files of ups_db): ensureInSync does not look at such a file *)
+                                      cat "," (Stdlib.List.filter_map (fun (s, ps) ->
+                                          if Stdlib.List.exists (fun (f, _) ->
+                                              glookup key_eqb (u, f) ps.ps_modtimes = None && pk_get w' u s f <> None) ps.ps_lookup
+                                          then Some (enc_str s) else None) m);
+                                      (* the same, for any live instance of the session *)
+                                      cat "," (uniq_l (Stdlib.List.concat_map (fun mi ->
+                                          Stdlib.List.filter_map (fun (s, ps) ->
+                                              if Stdlib.List.exists (fun (f, _) ->
+                                                  glookup key_eqb (u, f) ps.ps_modtimes = None && pk_get w' u s f <> None) ps.ps_lookup
+                                              then Some (enc_str s) else None) mi) ms'))] :: !blocks
+                 | None -> ());
+              show_outcome oc) (split_sep '&' a.(3)) in
+          cat "#" [cat "," ocs; show_records !w; show_pickles !w; ""; cat "@" (Stdlib.List.rev !blocks); show_urecords !w]
         | _ -> failwith "bad proc") (split_sep '|' f.(5)) in
     cat "\t" segs
   | _ -> failwith "unknown request"
